@@ -20,7 +20,7 @@ __all__ = [
 
 import logging
 from collections.abc import Iterable, Mapping, Sequence
-from typing import Union
+from typing import Any, Union
 
 import numpy as np
 import onnx  # ruff: ignore[banned-api]
@@ -439,6 +439,22 @@ def rename_values(
                     )
 
         initializer_values_by_graph[graph] = tuple(value for value, _ in initializer_pairs)
+
+    # Rename the backing tensors first. This is the only step that can still be refused (a tensor
+    # whose name cannot be assigned); doing it before anything else is touched, and undoing it on
+    # failure, keeps the call all-or-nothing.
+    renamed_tensors: list[tuple[Any, str | None]] = []
+    try:
+        for value, name in ordered_pairs:
+            tensor = value.const_value
+            if tensor is not None and value.name != name:
+                old_tensor_name = tensor.name
+                tensor.name = name
+                renamed_tensors.append((tensor, old_tensor_name))
+    except Exception:
+        for tensor, old_tensor_name in reversed(renamed_tensors):
+            tensor.name = old_tensor_name
+        raise
 
     for graph, initializer_values in initializer_values_by_graph.items():
         for value in initializer_values:
